@@ -6,6 +6,9 @@ One scenario line (see props/C11.py for the fields) = two requests for one fresh
 The origin answers a conditional request 2 with 304 (so a stored copy would be served again) and anything else with the scripted
 response again; every full origin response carries `X-Seq: <n>` (its arrival number), a 304 does not.
 
+A line starting with `R` carries one more field (the Cache-Control field lines of the origin's 304) and a third, plain request
+follows request 2; its observation is `d=... k=<request 2> k3=<request 3> b=<X-Seq seen by request 3>`.
+
 Observation (one line): `d=<answer>|<reason> k=<hit|reval|miss> b=<n>`
   d  the decision HttpStateData::haveParsedReplyHeaders logged for request 1 (`decided: ...` at debug level 11,3), `none` if absent
   k  what reached the origin for request 2: nothing (hit), a conditional request (reval), an unconditional request (miss)
@@ -25,6 +28,7 @@ ANSWERS = {
 }
 
 AUTH_VALUE = "Basic dmVyaWY6c2VjcmV0"   # verif:secret
+PROBLEM = re.compile(r"(assertion failed[^\n]*|FATAL[^\n]*|ERROR: AddressSanitizer[^\n]*|runtime error:[^\n]*|BUG[^\n]*)")
 
 
 def stock_refresh_patterns(stage):
@@ -55,7 +59,16 @@ class Worker:
     def squid(self, cfg):
         s = self.squids.get(cfg)
         if s is None or not s.alive():
-            s = rig.Squid(self.stage, conf=conf_for(self.stage, cfg)).start()
+            err = None
+            for attempt in range(4):      # the free port found by the rig can be taken by another process before squid binds it
+                try:
+                    s = rig.Squid(self.stage, conf=conf_for(self.stage, cfg)).start()
+                    break
+                except RuntimeError as e:
+                    err = e
+                    time.sleep(0.3 * (attempt + 1))
+            else:
+                raise err
             s.log_pos = 0
             self.squids[cfg] = s
         return s
@@ -71,8 +84,30 @@ class Worker:
         s.log_pos += len(data)
         return data.decode("latin-1")
 
+    def new_stderr(self, s):
+        try:
+            with open(os.path.join(s.dir, "stderr.log"), "rb") as f:
+                f.seek(getattr(s, "err_pos", 0))
+                data = f.read()
+        except OSError:
+            return ""
+        s.err_pos = getattr(s, "err_pos", 0) + len(data)
+        return data.decode("latin-1")
+
     def one(self, line):
         f = line.split(" ")
+        three = bool(f) and f[0] == "R"
+        nmcc = []
+        if three:
+            if len(f) != 16:
+                return "bad-op"
+            try:
+                nmcc = [] if f[15] == "." else [unhx(x) for x in f[15].split(",")]
+            except ValueError:
+                return "bad-op"
+            if any(b"\r" in v or b"\n" in v or b"\0" in v for v in nmcc):
+                return "bad-op"
+            f = f[1:15]
         if len(f) != 14:
             return "bad-op"
         try:
@@ -104,6 +139,9 @@ class Worker:
             h = ["HTTP/1.1 %d %s" % ((304, "Not Modified") if cond else (status, "Scripted"))]
             if offs["date"] is not None:
                 h.append("Date: " + rig.date_now(offs["date"]))
+            if cond:
+                for v in nmcc:
+                    h.append("Cache-Control: " + v.decode("latin-1"))
             if not cond:
                 for v in respcc:
                     h.append("Cache-Control: " + v.decode("latin-1"))
@@ -160,15 +198,24 @@ class Worker:
             d = "%s|%s" % (ANSWERS[dec[0][0]], dec[0][1].replace(" ", "_"))
         else:
             d = "none" if not dec else "many"
-        if len(reqs) == 1:
-            k = "hit"
-        elif len(reqs) == 2:
-            q = reqs[1]["hdrs"]
-            k = "reval" if (rig.hget(q, "if-modified-since") is not None or rig.hget(q, "if-none-match") is not None) else "miss"
-        else:
-            k = "arrivals=%d" % len(reqs)
+        def kind(before, after):
+            if len(after) == len(before):
+                return "hit"
+            if len(after) == len(before) + 1:
+                q = after[-1]["hdrs"]
+                return "reval" if (rig.hget(q, "if-modified-since") is not None or rig.hget(q, "if-none-match") is not None) else "miss"
+            return "arrivals=%d" % (len(after) - len(before))
+        k = kind(reqs[:1], reqs)
         b = rig.hget(r2["hdrs"], "x-seq", "none")
-        probs = sq.problems()
+        if three:
+            r3 = request(False, [])
+            if r3 is None:
+                return "abort:squid-died" if not sq.alive() else "no-response-3"
+            reqs3 = self.origin.requests(sid)
+            k = "%s k3=%s" % (k, kind(reqs, reqs3))
+            b = rig.hget(r3["hdrs"], "x-seq", "none")
+        # assertion failures / FATAL / sanitizer reports, looked for in the part of the logs this scenario produced only
+        probs = PROBLEM.findall(log1 + self.new_log(sq) + self.new_stderr(sq))
         if probs:
             return "abort:" + re.sub(r"\s+", "_", probs[0])[:160]
         return "d=%s k=%s b=%s" % (d, k, b)
@@ -201,12 +248,12 @@ class Harness:
                     return
                 try:
                     o = w.one(l)
-                    if o.startswith(("no-response", "first-arrivals", "abort")) or "arrivals=" in o:
+                    if o.startswith(("no-response", "first-arrivals", "abort", "d=none", "d=many")) or "arrivals=" in o:
                         o2 = w.one(l)       # flake guard: such outcomes must repeat
                         if o2 != o:
                             o = w.one(l)
                 except Exception as e:   # harness trouble is reported, never hidden
-                    o = "abort:harness:%s:%s" % (type(e).__name__, re.sub(r"\s+", "_", str(e))[:120])
+                    o = "abort:harness:%s:%s" % (type(e).__name__, re.sub(r"\s+", "_", str(e))[-300:])
                 if o.startswith("abort"):
                     self.crashes += 1
                 out[i] = o
